@@ -85,4 +85,29 @@ INPUTCHECK = dict(
         dict(py="validate_number_of_cores", opaque={"multiprocessing.cpu_count()": "cpu_count"}),
     ])
 
-TARGETS = [INPUTCHECK, SPAWNER, COMMUNICATION, BACKEND, SHARED_PATH, CACHE_CMD]
+_LOOP_COMMON = dict(
+    send="interface_send", send_kw="result_dict",
+    recv="interface_receive(socket=socket)", recv_param="received",
+    ignore=["interface_shutdown(socket=socket, context=context)", "MPI.COMM_WORLD.Barrier()"],
+    init={"memory": "None"}, state=["memory"])
+
+WORKER_SERIAL = dict(
+    out="WorkerSerial", file="executorlib/backend/interactive_serial.py",
+    funcs=[
+        dict(py="main", name="wstep_serial",
+             inline={"str(type(error))": "(py_type_str v_error)"},
+             loop=dict(_LOOP_COMMON, params=["memory", "received"], drop_first_recv="input_dict",
+                       rename_recv="input_dict")),
+    ])
+
+WORKER_PARALLEL = dict(
+    out="WorkerParallel", file="executorlib/backend/interactive_parallel.py",
+    funcs=[
+        dict(py="main", name="wstep_rank",
+             inline={"str(type(error))": "(py_type_str v_error)"},
+             loop=dict(_LOOP_COMMON, params=["memory", "received", "mpi_rank_zero", "mpi_size_larger_one"],
+                       collectives={"MPI.COMM_WORLD.bcast": ("bcast", {"root": "0"}),
+                                    "MPI.COMM_WORLD.gather": ("gather", {"root": "0"})})),
+    ])
+
+TARGETS = [INPUTCHECK, SPAWNER, COMMUNICATION, BACKEND, SHARED_PATH, CACHE_CMD, WORKER_SERIAL, WORKER_PARALLEL]
